@@ -418,4 +418,14 @@ example : IsSector goodFat16 ∧
     rootDirSlice (Bpb.deserialize goodFat16) 97 32 = .ok { sBegin := 65 * 512, size := 32 * 512, mirrors := 1 } := by
   decide +kernel
 
+/-! ## sanity of the (de)serialisers on the witnesses -/
+
+example : BootSector.serialize (BootSector.deserialize goodFat32) = goodFat32 ∧
+    BootSector.serialize (BootSector.deserialize goodFat16) = goodFat16 := by decide +kernel
+
+example : FsInfo.deserialize (FsInfo.serialize { freeClusterCount := some 7, nextFreeCluster := none }) =
+      .ok { freeClusterCount := some 7, nextFreeCluster := none } ∧
+    FsInfo.serialize { freeClusterCount := some 68552, nextFreeCluster := some 68554 } =
+      fsInfoSector 68552 68554 := by decide +kernel
+
 end FatVerif.C07
